@@ -176,6 +176,8 @@ struct Obs {
     fas_unchanged: bool,
     fas_counts: (usize, usize),
     mf_kept: Vec<bool>,
+    /// (chunk limit, positions collected by process_stream_new_msgs)
+    stream_sets: Vec<(usize, Vec<usize>)>,
 }
 
 fn observe(fx: &Fixture, set: &[&PoolEntry]) -> Result<Obs, (String, String)> {
@@ -226,7 +228,28 @@ fn observe(fx: &Fixture, set: &[&PoolEntry]) -> Result<Obs, (String, String)> {
         Err(p) => return Err(("panic".into(), format!("{}|match_filters: {}", p.loc, p.msg))),
         Ok(v) => v,
     };
-    Ok(Obs { fas_kept, fas_unchanged: unchanged, fas_counts: counts, mf_kept })
+    // (c) the stream path of the remote server: process_stream_new_msgs called the way the server loop does, for
+    // several chunk limits; it must collect exactly the positions match_filters keeps (when filters are active)
+    let mut stream_sets: Vec<(usize, Vec<usize>)> = vec![];
+    for chunk in [1usize, 7, usize::MAX] {
+        let r = catch(|| -> Result<Vec<usize>, String> {
+            let mut st = StreamContext::from(&fx.log, "stream", &js).map_err(|e| e.to_string())?;
+            if !st.filters_active {
+                return Ok((0..fx.msgs.len()).collect());
+            }
+            for _ in 0..fx.msgs.len() + 2 {
+                let last = st.all_msgs_last_processed_len.min(fx.msgs.len());
+                adlt::utils::remote_utils::process_stream_new_msgs(&mut st, last, &fx.msgs[last..], chunk);
+            }
+            Ok(st.filtered_msgs.clone())
+        });
+        match r {
+            Err(p) => return Err(("panic".into(), format!("{}|process_stream_new_msgs: {}", p.loc, p.msg))),
+            Ok(Err(e)) => return Err(("mf_construct".into(), format!("|{e}"))),
+            Ok(Ok(v)) => stream_sets.push((chunk, v)),
+        }
+    }
+    Ok(Obs { fas_kept, fas_unchanged: unchanged, fas_counts: counts, mf_kept, stream_sets })
 }
 
 /// evaluate all clauses; returns (clause, sub-discriminator, detail) of every failing clause
@@ -278,6 +301,14 @@ fn judge(fx: &Fixture, set: &[&PoolEntry]) -> Vec<(String, String, String)> {
             if obs.mf_kept[i] { "kept_but_should_drop" } else { "dropped_but_should_keep" }.into(),
             format!("message {i} {}: match_filters={}, statement kept={}", fx.st[i].to_value(), obs.mf_kept[i], exp_mf[i]),
         ));
+    }
+    // the stream path keeps exactly what match_filters keeps, whatever the chunk limit
+    for (chunk, set_) in &obs.stream_sets {
+        let want: Vec<usize> = (0..n).filter(|i| exp_mf[*i]).collect();
+        if *set_ != want && !v.iter().any(|(c, _, _)| c == "mf_selection") {
+            v.push(("stream_selection".into(), if *chunk == usize::MAX { "unlimited_chunk" } else { "chunked" }.into(), format!("process_stream_new_msgs (chunk limit {chunk}) collected positions {:?}, statement keeps {:?}", set_, want)));
+            break;
+        }
     }
     // agreement where both apply
     let any_event = set.iter().any(|p| p.af.kind == 3 && p.af.enabled);
@@ -399,7 +430,7 @@ impl Prop for C12 {
         Meta {
             id: "C12",
             level: "exploration",
-            rule: "all ordered tuples (superset of the multisets) of <= k filters from a pool of 19 (positive / negative / event / marker x enabled / disabled x plain / negated, overlapping ECU / APID / payload / lifecycle criteria) x a 30-message stream (2 ECUs x {no extended header, 2 APIDs} x 2 lifecycles x 2 texts + 6 repeated messages), through filter_as_streams and through match_filters on the container built by StreamContext::from. Oracle from the statement (single-filter decisions from the independent C11 evaluator): selection, forwarded messages equal to the received ones, original order, passed + filtered = received and passed = number forwarded, event clause for match_filters, agreement of both implementations when no enabled event filter is present. A case is non-trivial when the statement keeps some but not all messages.".into(),
+            rule: "all ordered tuples (superset of the multisets) of <= k filters from a pool of 19 (positive / negative / event / marker x enabled / disabled x plain / negated, overlapping ECU / APID / payload / lifecycle criteria) x a 30-message stream (2 ECUs x {no extended header, 2 APIDs} x 2 lifecycles x 2 texts + 6 repeated messages), through filter_as_streams, through match_filters on the container built by StreamContext::from, and through the remote stream path process_stream_new_msgs (called like the server loop, chunk limits 1 / 7 / unlimited). Oracle from the statement (single-filter decisions from the independent C11 evaluator): selection, forwarded messages equal to the received ones, original order, passed + filtered = received and passed = number forwarded, event clause for match_filters, agreement of both implementations when no enabled event filter is present. A case is non-trivial when the statement keeps some but not all messages.".into(),
             assumptions: vec![
                 "filter_as_streams is the convert path: the statement's event clause ('for streams and searches') is applied to match_filters only".into(),
                 "the export plugin is not driven; it builds its container like StreamContext::from (enabled filters only) and calls the same match_filters".into(),
